@@ -485,6 +485,11 @@ def rule_empty(ctx, M, u, rule, extra_guards=()):
     class _T:
         pass
     tests = []
+    # the emptiness test that counts is the first one: later ones (a `debug_assert!(!futures.is_empty())` after the
+    # early return) are dominated by it and decide nothing
+    firsts = [x for x in et if all(bi.body.dominates(x[0], y[0]) for y in et)]
+    if len(firsts) == 1:
+        et = firsts
     for blk, eds in et:
         t_ = _T()
         t_.block = blk
